@@ -633,11 +633,11 @@ fn va_to_gpa(n: usize) {
     }
     std::mem::forget(r);
 }
-// @harness props=C13,C05 tier=quick reach=off bound="vmm_va_to_gpa: 3 mappings with symbolic user base/size/gpa obeying what the request server validates (size != 0, no 64-bit wrap of user or guest range; overlaps and any order allowed), all 64-bit probe addresses" stubs="-"
+// @harness props=C13,C05,C14 tier=quick reach=off bound="vmm_va_to_gpa: 3 mappings with symbolic user base/size/gpa obeying what the request server validates (size != 0, no 64-bit wrap of user or guest range; overlaps and any order allowed), all 64-bit probe addresses" stubs="-"
 h_proof! { #[kani::unwind(6)] fn c13_u_va_to_gpa_3() { va_to_gpa(3) } }
-// @harness props=C13,C05 tier=quick reach=off bound="vmm_va_to_gpa: 1 mapping, all values" stubs="-"
+// @harness props=C13,C05,C14 tier=quick reach=off bound="vmm_va_to_gpa: 1 mapping, all values" stubs="-"
 h_proof! { #[kani::unwind(6)] fn c13_u_va_to_gpa_1() { va_to_gpa(1) } }
-// @harness props=C13 tier=quick reach=off bound="vmm_va_to_gpa: empty table: every address is rejected" stubs="-"
+// @harness props=C13,C14 tier=quick reach=off bound="vmm_va_to_gpa: empty table: every address is rejected" stubs="-"
 h_proof! { #[kani::unwind(6)] fn c13_u_va_to_gpa_0() { va_to_gpa(0) } }
 
 // ---------------------------------------------------------------------------------------- C14 / C05
